@@ -163,12 +163,14 @@ class ProbUGrammar(TaggedUGrammar[float, U, V, W]):
         start: Optional[Tuple[Type, U]] = None,
     ) -> float:
         try:
-            return self.reduce_derivations(
+            values = self.reduce_derivations(
                 lambda current, S, P, V: current * self.tags[S][P][tuple(V)],  # type: ignore
                 1.0,
                 program,
                 start,
-            )[0]
+            )
+            # no derivation: the program is not in the grammar
+            return values[0] if values else 0
         except KeyError:
             return 0
 
